@@ -5,12 +5,13 @@ CONSTANTS
   MaxVal = 1
   MaxNonce = 1
   MaxBal = 1
-  MaxCode = 1
+  MaxCode = 0
+  Del = TRUE
   MaxJournal = 2
   MaxSnap = 1
   MaxIds = 1
 VIEW view
 CONSTRAINT Bound
 INVARIANTS TypeOK SnapshotsNested RevertRestoresExactly
-PROPERTIES RevertStep ReopenEqualsContent FinalisedClean DiskStable ProofYieldsValueOrAbsence
+PROPERTIES ResetQuirk RevertStep ReopenEqualsContent FinalisedClean DiskStable ProofYieldsValueOrAbsence
 CHECK_DEADLOCK FALSE
